@@ -209,6 +209,9 @@ func (c *Ctx) curxRun() *curVerdict {
 						}
 						full = append(full, seq...)
 						v.runs++
+						if (ci+k)%7 == 0 {
+							noteSample("CUR.cursor/scripts", fmt.Sprintf("content %q: %s", s, strings.Join(full, ",")))
+						}
 						// the fresh scanner
 						if got, out := h.observe(sc); out.kind == "ok" && got != ref.observe() {
 							v.bad = fmt.Sprintf("a new scanner over %q reports [%s]; the cursor model gives [%s]", s, got, ref.observe())
